@@ -55,7 +55,7 @@ func TestVP_C21_consensus_marker(t *testing.T) {
 	c := kit.New(t, "C21", "rapid: the C22 workloads, each containing >= 1 consensus-class snapshots (custodian updates, node pledge, node accept as round 0 of the new chain, node removal; all on the chain the kernel's rules assign) interleaved with ordinary snapshots of other chains; cuts are drawn at or after the first consensus snapshot's write (every boundary in thorough; quick aims 7 of 10 cuts per workload at the marker windows [WriteSnapshot..WriteConsensusSnapshot] of the consensus steps), plain or with another chain finalizing at the boundary first, and the workload continues after restart; oracle: after restart ReadLastConsensusSnapshot is the latest consensus snapshot whose write returned before the cut, or a later one; the interleaving class of known finding C21-F5 (nested cuts strictly inside a marker window) and the cuts of known finding C22-F8 (restart impossible) are excluded by construction and counted; non-trivial = cut after a consensus-class snapshot write; distinct by (workload, cut)")
 	c.Require("after-consensus-write", "nested", "cut-WriteConsensusSnapshot", "cut-WriteSnapshot", "after-pledge-write", "after-accept-write", "cut-in-accept-path", "cut-in-pledge-path")
 	perWorkload, aimed := 10, 7
-	kit.SetChecks(kit.N(12, 60))
+	kit.SetChecks(kit.N(10, 60))
 	if kit.Thorough() {
 		perWorkload = 0
 	}
